@@ -92,7 +92,8 @@ class IterateNames:
         from pyvaporation.pervaporation import pervaporation as pvmod
         from .symx import named
         self.names = []
-        orig = pvmod.get_permeate_composition_from_fluxes
+        from .core import require
+        orig = require(pvmod, "get_permeate_composition_from_fluxes")
         me = self
 
         def wrapped(fluxes):
@@ -114,7 +115,8 @@ class LoopCounter:
     def __init__(self, patches, K):
         self.n = 0
         self.K = K
-        orig = Pervaporation.get_partial_fluxes_from_permeate_composition
+        from .core import require
+        orig = require(Pervaporation, "get_partial_fluxes_from_permeate_composition")
         me = self
 
         def counted(self, *a, **k):
